@@ -14,6 +14,45 @@ def run(ctx):
     variants = {"limit": ["Accept", "TransferInitiated", "DataQueued", "DataReceived", "SetDataLimit", "PauseResponder", "ResumeResponder", "SetRequiresFinalization", "Restart"]}
     stages.chan_family(ctx, ["C08."], lambda s: s["op"] in ("DataQueued", "DataReceived", "SetDataLimit"), seq_variants=variants, seq_roles=["respPush", "respPull"],
                        seqs_quick=(12, 16), seqs_thorough=(150, 26))
+    # limit schedules across an engine restart: the limit is (re)set BEFORE the first block report after the reopen, so the
+    # progress the limit is measured against has to come from the durable record, not from a fresh cache entry
+    sched = []
+    ZA = {"delta": 0, "index": 0, "unique": False, "limit": 0, "flag": False, "err": "", "v": ""}
+    for role, op in (("respPull", "DataQueued"), ("respPush", "DataReceived")):
+        ident = {"self": "A", "initiator": "B", "responder": "A", "sender": "A" if role == "respPull" else "B", "recipient": "B" if role == "respPull" else "A", "tid": 0, "base": "base", "sel": "s"}
+        for l0 in (0, 4):
+            for l1 in (3, 4, 6, 0):
+                for d1 in (1, 3):
+                    for d2 in (1, 2, 3):
+                        for reopen in (True, False):
+                            for setfirst in (True, False):
+                                st = [("Accept", {}), ("TransferInitiated", {})]
+                                if l0:
+                                    st.append(("SetDataLimit", {"limit": l0}))
+                                st.append((op, {"delta": d1, "index": 1, "unique": True}))
+                                if reopen:
+                                    st.append(("reopen", {}))
+                                nxt = [("SetDataLimit", {"limit": l1}), (op, {"delta": d2, "index": 2, "unique": True})]
+                                st += nxt if setfirst else nxt[::-1]
+                                st.append((op, {"delta": 2, "index": 3, "unique": True}))
+                                sched.append({"case": "limsched-%d" % len(sched), "chans": [{"name": "c1", "ident": dict(ident, tid=300000 + len(sched)), "rec": None}],
+                                              "steps": [{"c": "c1", "op": o, "args": dict(ZA, **a)} for o, a in st]})
+    if ctx.quick():
+        ctx.rng.shuffle(sched)
+        sched = sched[:120]
+    zr = {"status": "Requested", "ip": False, "rp": False, "queued": 0, "sent": 0, "received": 0, "qIdx": 0, "sIdx": 0, "rIdx": 0, "limit": 0, "reqFin": False, "msg": "",
+          "vouchers": ["v0"], "results": []}
+    for c in sched:
+        c["chans"][0]["rec"] = zr
+    cp = ctx.path("limsched.ndjson")
+    vlib.write_ndjson(cp, sched)
+    obs = stages.run_scripts(ctx, cp)
+    n3, v3 = stages.judge(ctx, obs)
+    idx3 = stages.index_obs(obs)
+    stages.classify(ctx, v3, ["C08."], idx3, "limit schedule: ")
+    stages.count_cases(ctx, idx3, lambda s: s["op"] in ("DataQueued", "DataReceived", "SetDataLimit"))
+    ctx.traces += n3
+    ctx.extra["limit_schedules"] = n3
     stages.mgr_family(ctx, ["C08.", "C04.rejectedUpdateFails"], ["all"], lambda s: s["stim"]["kind"] in ("OnDataQueued", "OnDataReceived", "UpdateValidation"),
                       quick_n=3000, model=not ctx.quick(), sims=False, invariants=["M_C04_Faithful"], keep=lambda l: any(k in l for k in ('"kind":"UpdateValidation"', '"kind":"OnDataQueued"', '"kind":"OnDataReceived"')))
     # transport level, real manager + real graphsync adapter: the re-validation's resume must be the last word the request hears
